@@ -18,6 +18,7 @@ from ..gen import workload as W
 from ..prng import sub
 
 ID = "C13"
+PROBES = ['probe_external_persisted', 'probe_persisted_file_removed', 'probe_missing_or_ambiguous_prefix', 'lookups_probed']  # reach probes: counters that must be non-zero in a run (a zero is printed and recorded)
 LEVEL = "exploration"
 BUDGET = {"quick": 260, "thorough": 7000}
 WALL = {"quick": 300, "thorough": 3400}
